@@ -88,7 +88,7 @@ Section Any.
       destruct (neg_div A sv loss); cbn [bind map_res]; try reflexivity.
       destruct (pos_mul A _ sold); cbn [bind map_res]; reflexivity.
     - destruct m as [r|]; [|reflexivity].
-      destruct (neg_unwrap _ calc); cbn [bind map_res]; try reflexivity.
+      destruct (negb (Qcltb calc 0)); [reflexivity|].
       rewrite gen_sfla_erase. destruct (gen_sfla A t _ _); cbn [bind map_res]; reflexivity.
   Qed.
 
